@@ -230,6 +230,10 @@ def scenarioOutcome (scen : String) (status : Nat) (bogus : Bool) (id : Str) : O
   -- (outcome, handler ran, framework-format body)
   let okRsp : Response := { status := status, headers := [(hContentType, ctJson)], body := [] }
   if scen == "ok" || scen == "typed-ok" then some (.ok okRsp, true, false)
+  else if scen == "ws" then
+    -- the 101 of a websocket upgrade is a final response like any other (no content type)
+    some (.ok { status := status, headers := [(Error.strBytes "upgrade", Error.strBytes "websocket")], body := [] },
+          true, false)
   else if scen == "okdecl" then
     some (.ok { okRsp with headers := [(hContentType, ctJson), (Error.strBytes "x_one", Error.strBytes "declared")] },
           true, false)
@@ -268,7 +272,7 @@ def handleLv (id : String) (inp impl : List String) : String :=
         let r := wrap o rid
         let nx := (HMap.getAll hRequestId r.headers).length
         let m := [toString r.status, toString nx, if ran then "1" else "na", if fw then "1" else "na",
-                  "1", "0", "json", "1", "0"]
+                  "1", "0", (if scen == "ws" then "other" else "json"), "1", "0"]
         let cls := s!"lv-{mode}-{scen}-{if bogus == "1" && scen.startsWith "herr-" then "bogus" else "plain"}-{cid}"
         -- spec, from the property: the status the handler/framework chose; exactly one
         -- x-request-id; equal to the id the handler saw (when a handler ran) and to the id in a
